@@ -48,6 +48,26 @@ META = {
                 tech="explicit-state BFS over connect/handshake-pending/replace/reset/reopen/close event histories with socket-table invariant",
                 text="BFS to depth 5/7 over server and client event histories (plain and TLS); after Server.close()/reopen() every socket it created or accepted must be closed; a client never leaves an earlier socket open.",
                 note="Openness is observed on the fake sockets (explicit close() calls), never through garbage collection."),
+    "C12": dict(cat="model_checking", eng="E1 full tree over FakeNet + virtual tyme", ref="3 (C12)",
+                tech="complete enumeration of all client activity timings per tick (3^9 and 2^13/2^16) against a statement-derived idle rule",
+                text="Real http.Server (plain and TLS servant) wound to a virtual Tymist; for every timing of client bytes relative to ticks the connection must be closed exactly at the first service at tyme >= last traffic + tymeout and never while traffic keeps arriving.",
+                note="Traffic is stamped with the tyme of the service call that moved the bytes. Persistent connections are outside the property."),
+    "C13": dict(cat="model_checking", eng="E3 differential", ref="3 (HTTP parsing group)",
+                tech="exhaustive enumeration of all <=2/3-cut partitions and byte-by-byte feeding of a message corpus; fragmented vs one-shot differential on the real parsers",
+                text="Every message of a bounded grammar (requests, responses, CL/chunked/close-delimited, CRLF/LF heads, 100-continue, pipelined pairs) is parsed one-shot and under every partition; all parser result fields must be identical.",
+                note="Equal escaping exceptions count as equal (C16 judges escapes)."),
+    "C15": dict(cat="model_checking", eng="E3 + reference parser", ref="3 (C15)",
+                tech="exhaustive enumeration of event streams x line-terminator assignments x fragmentations x framing, against a WHATWG reference parser",
+                text="Streams of 1-3 events from 16 shapes, every per-line CRLF/LF/CR assignment (single events) or near-uniform assignment, every <=2/3-cut partition and byte-wise, close-delimited and chunked; events, last id and retry must equal the reference.",
+                note="Reference parser transcribed from the WHATWG algorithm (vf/ref/sse.py); streams end with a complete event; no BOM."),
+    "C16": dict(cat="fault_enumeration", eng="E3 mutation enumeration over FakeNet", ref="3 (C16)",
+                tech="exhaustive enumeration of short byte strings, alphabet strings, all single mutations of a message corpus and targeted near-valid shapes against WSGI server, bare server and client",
+                text="service() of http.Server, BareServer and http.Client must never raise for any enumerated input; a sibling connection must still be answered.",
+                note="Key = (system, innermost hio call site, exception type)."),
+    "C17": dict(cat="exploration", eng="E3", ref="3 (C17)",
+                tech="exhaustive enumeration of bodies x chunk compositions x extensions x trailers and of all chunk-size strings up to a length",
+                text="All bodies <= 4/6 bytes over 4 byte values in every chunk composition decode exactly through both parsers; every chunk-size string <= 3/4 chars over 15 characters is accepted iff it is plain hex.",
+                note="Whitespace-padded hex sizes are don't-care (RFC 7230 BWS)."),
     "C26": dict(cat="exploration", eng="E3 full enumeration", ref="3 (C26)",
                 tech="exhaustive enumeration of small input domains against arithmetic written from the statement",
                 text="Every integer below 2^18/2^22 x lengths 1..6 plus power-of-64 boundaries; every Base64 string up to length 3/4; every byte string up to 2/3 bytes x admissible sextet counts.",
